@@ -167,13 +167,17 @@ class SplitOperator(LinearOperator):
                     isinstance(slc[i], slice) and slc[i] == slice(None)
                 ):
                     k_tgt += [d]
-                    k_slc_by_ax += [slice(None)]
+                    # one entry per array axis of the sub-domain
+                    k_slc_by_ax += [slice(None)] * len(d.shape)
+                elif len(d.shape) != 1:
+                    ve = (
+                        f"can not slice the multi-dimensional sub-domain {d!r}"
+                        f" at key {k!r}"
+                    )
+                    raise ValueError(ve)
                 elif isinstance(slc[i], slice):
-                    start = slc[i].start if slc[i].start is not None else 0
-                    stop = slc[i].stop if slc[i].stop is not None else d.size
-                    step = slc[i].step if slc[i].step is not None else 1
-                    frac = np.floor((stop - start) / np.abs(step))
-                    k_tgt += [UnstructuredDomain(frac.astype(int))]
+                    n_sel = len(range(*slc[i].indices(d.size)))
+                    k_tgt += [UnstructuredDomain(n_sel)]
                     k_slc_by_ax += [slc[i]]
                 elif isinstance(slc[i],
                                 np.ndarray) and slc[i].dtype is np.dtype(bool):
